@@ -40,7 +40,6 @@ def evaluate(case, obs, sim, monitors):
         lost = led.lost(*obs.trees)
         if lost:
             probs.append(("content_lost", lost[:3]))
-        probs.extend(O.converged_problems(*obs.trees))
     return probs
 
 
